@@ -123,7 +123,48 @@ def gen_find_uniq_u(ctx):
         obs.append(make_ob("py:sym_u.find_uniq_u[%s].idempotent_no_ties" % name, distinct,
                            z3.And(*[_T(res[i, j]) == _T(res3[i, j]) for i in range(3) for j in range(3)]), kind="pysym",
                            fn="py:sym_u.find_uniq_u", prop="C16"))
-    return obs, dict(paths=len(groups), source_sha=None)
+    return obs, dict(paths=len(groups), source_sha=None, replayer=_replay_find_uniq_u)
+
+
+def _replay_find_uniq_u(ur, ob, model, seed):
+    """run the real find_uniq_u on the matrix of the counter-model (then on seeded random matrices) and evaluate the named clause"""
+    import re
+    import random
+    su, groups = _groups()
+    m = re.match(r"py:sym_u\.find_uniq_u\[(\w+)\]\.(\w+?)(?:\.h(\d+))?$", ob.name)
+    if not m:
+        return dict(confirmed=False, why="unknown clause name")
+    g, clause, hk = groups[m.group(1)], m.group(2), m.group(3)
+    cands = []
+    if model is not None:
+        u = np.zeros((3, 3))
+        for d in model.decls():
+            mm = re.match(r"u_(\d)_(\d)$", d.name())
+            if mm:
+                v = model[d]
+                u[int(mm.group(1)), int(mm.group(2))] = float(v.numerator_as_long()) / float(v.denominator_as_long())
+        cands.append(("solver-model", u))
+    rng = random.Random(seed)
+    for i in range(60):
+        cands.append(("seeded-random#%d" % i, np.array([[rng.uniform(-1, 1) for _ in range(3)] for _ in range(3)])))
+    for label, u in cands:
+        orbit = [np.dot(o, u) for o in g.group]
+        tr = np.array([np.trace(c) for c in orbit])
+        res = su.find_uniq_u(u.copy(), g)
+        ties = len(set(np.round(tr, 9))) < len(tr)
+        bad = None
+        if clause == "member_of_orbit":
+            bad = not any(np.allclose(res, c, atol=1e-9) for c in orbit)
+        elif clause == "trace_maximal":
+            bad = np.trace(res) < tr.max() - 1e-9
+        elif clause == "canonical_no_ties" and not ties:
+            bad = not np.allclose(res, su.find_uniq_u(np.dot(g.group[int(hk)], u), g), atol=1e-9)
+        elif clause == "idempotent_no_ties" and not ties:
+            bad = not np.allclose(res, su.find_uniq_u(res.copy(), g), atol=1e-9)
+        if bad:
+            return dict(confirmed=True, source=label, inputs=dict(u=u.tolist(), group=m.group(1)), clause=clause,
+                        observed=dict(result=np.asarray(res).tolist(), trace=float(np.trace(res)), orbit_traces=tr.tolist()))
+    return dict(confirmed=False, why="the clause holds on the solver model and on 60 seeded random matrices")
 
 
 def b_ties(ctx):
